@@ -227,8 +227,14 @@ void run_typed(const RunCfg& c, const char* type_name) {
     case 0: start = 0; break;
     case 1: start = 1; break;
     case 2: start = 100; break;
-    default: start = (IntT)(Lim::max() - (IntT)c.slack - (IntT)c.len); break;
+    case 3: start = (IntT)(Lim::max() - (IntT)c.slack - (IntT)c.len); break;
+    default:
+      // signed types: a range that ends at -1, 0 or +1 (negative start, zero inside or at the edge)
+      if (std::is_signed_v<IntT>) start = (IntT)((IntT)(c.slack % 3) - 1 - (IntT)c.len);
+      else start = 0;
+      break;
   }
+  if (c.offset_kind == 4 && std::is_signed_v<IntT> && c.len > 0) VS_PROBE("negative_start_value");
   IntT end = (IntT)(start + (IntT)c.len);
   // does the cursor wrap? each worker overshoots end_value by at most one claim
   uint64_t headroom = (uint64_t)Lim::max() - (uint64_t)end;
@@ -385,7 +391,7 @@ static void run() {
   c.len = choose(thorough ? 13 : 7, "len");
   bool large = thorough && choose(16, "large") == 15; // occasionally a long range with many threads
   if (large) c.len = 13 + choose(108, "len.large");
-  c.offset_kind = choose(4, "offset");
+  c.offset_kind = choose(5, "offset");
   c.slack = choose(9, "slack");
   c.threads = large ? 1 + choose(8, "threads.large") : choose(5, "threads"); // 0..4 (1..8 for long ranges)
   c.eff_threads = c.threads == 0 ? 3 : c.threads;
@@ -434,7 +440,7 @@ static void run() {
   if (sc.strategy != vpar::FIRST && c.eff_threads > 1 && c.len > 0) mark_nontrivial();
   static const char* FUNCS[] = {"parallel_range", "parallel_range_blocks", "parallel_range_blocks_multi"};
   static const char* TYPES_N[] = {"uint8_t", "uint16_t", "uint32_t", "uint64_t", "int32_t", "int64_t"};
-  static const char* OFFS[] = {"0", "1", "100", "near the type's maximum"};
+  static const char* OFFS[] = {"0", "1", "100", "near the type's maximum", "a negative value so that the range ends at -1, 0 or 1 (signed types)"};
   static const char* PROG[] = {"none", "recorder", "default"};
   static const char* STRAT[] = {"run-to-completion", "uniform", "PCT", "starve one task", "round-robin"};
   if (verbose()) {
@@ -479,7 +485,7 @@ int main(int argc, char** argv) {
   e.quick_cap_s = 120;
   e.thorough_cap_s = 1500;
   e.rule =
-      "one run = one configuration (function of the three, IntT of six, range length 0..6 [thorough 0..12, occasionally 13..120 with up to 8 threads] at offset 0/1/100/near the type's maximum, block size, "
+      "one run = one configuration (function of the three, IntT of six, range length 0..6 [thorough 0..12, occasionally 13..120 with up to 8 threads] at offset 0/1/100/near the type's maximum/negative (ending at -1, 0 or 1), block size, "
       "1..4 threads or 0=hardware_concurrency, set of values whose callback returns true, progress function nullptr/recorder/default) executed under one seeded "
       "schedule (strategy first/uniform/PCT/starve/round-robin; a scheduling point before every atomic operation, at thread start, join, sleep and inside the "
       "callback; progress timer may fire early); distinct = distinct hash of (configuration, sequence of (operation, from-task, to-task)); non-trivial = more than "
@@ -491,7 +497,7 @@ int main(int argc, char** argv) {
   e.components = {{"phosg Tools.hh: parallel_range, parallel_range_blocks, parallel_range_blocks_multi, their thread functions and parallel_range_default_progress_fn", "real, unmodified header from the repository working tree (macro retargeting in the harness TU)"},
       {"std::thread, std::atomic, usleep, now()", "stub: scheduler-controlled shims (engines/sim_par.cc, vsim/vpar.cc)"},
       {"callback and progress recorder", "harness"}};
-  e.expected_probes = {"two_workers_in_callback", "progress_timer_fired_while_workers_busy", "early_exit_skipped_values", "two_callbacks_returned_true", "end_value_near_type_max", "values_split_between_workers", "progress_fn_called"};
+  e.expected_probes = {"two_workers_in_callback", "progress_timer_fired_while_workers_busy", "early_exit_skipped_values", "two_callbacks_returned_true", "end_value_near_type_max", "values_split_between_workers", "progress_fn_called", "negative_start_value"};
   e.expected_faults = {};
   return driver_main(argc, argv, e);
 }
